@@ -2,6 +2,7 @@
 family (stitched kernels and murmur3_x64_128_internal.c: asmsym part).  Harness: cbmc/mh_harness.c (ALG=3)."""
 from common import Evidence, Verdict, scratch
 import mhglue
+import aescampaign
 
 
 def run(tier):
@@ -15,9 +16,12 @@ def run(tier):
             for k in range(1, len(mhglue.CTXOFFS)):
                 jobs += [mhglue.mh_job(3, fam, 1, i * 2 + k), mhglue.mh_job(3, fam, 2, i * 2 + k)]
     mhglue.run("C10", tier, jobs, ev, vd)
+    # stitched assembly kernels (asmsym): SHA-1 interim digests of all 16 segments AND the murmur state after the call, for all inputs
+    aescampaign.run("C10", tier, ev, vd, only=("murkernel",))
+    ev.assume("stitched kernels: z3 proves for %s per call, all input bytes, all incoming interim digests and both incoming murmur words, that the SHA-1 interim digests equal the iterated standard compression per segment and that the murmur state equals the MurmurHash3_x64_128 body applied to the 16-byte units in order (one cut point per unit)" % ("one 1024-byte block" if tier == "quick" else "two 1024-byte blocks"))
     ev.cov["bounds"].update(mhglue.MH_BOUNDS)
     ev.cov["bounds"]["murmur"] = "seed free 64-bit; every total mod 16 (tails 0..15) and every fill level; murmur state observed through all four words"
-    ev.cov["outside_bounds"] += mhglue.MH_OUTSIDE + ["arithmetic of the murmur block / tail / finalisation and of the stitched kernels (asmsym part)"]
+    ev.cov["outside_bounds"] += [x for x in mhglue.MH_OUTSIDE if not x.startswith("the block kernels")] + ["stitched kernels: more than %d block(s) per call" % (1 if tier == "quick" else 2), "arithmetic of the C murmur block / tail / finalisation functions (murmur3_x64_128_internal.c) and of the base C block function"]
     ev.extend_unique("stubs", mhglue.MH_STUBS + ["stitched kernels _mh_sha1_murmur3_x64_128_block_{sse,avx,avx2,avx512}: mh_sha1 block logger + murmur logger over the same 1024*n bytes (64*n units); _block_base is the real C wrapper",
                                                  "_murmur3_x64_128_block / _murmur3_x64_128_tail: loggers checking that every 16-byte unit of the stream is consumed exactly once and in order, that the tail gets the bytes at total mod 16 and the TOTAL length, and that the bytes they read are still the carried stream bytes (not yet overwritten by the mh_sha1 padding)"])
     ev.assume(*mhglue.MH_ASSUME)
